@@ -185,6 +185,22 @@ def run(S, tier, rep):
         for nc in (1, dim):
             check_pair(S, rep, dim, nc)
     call_sites(S, rep)
+    # force / torque conservation = adjointness (above) applied to constant / affine fields, which needs the weights to sum
+    # to one (times the cell volume) and, for torque, the Peskin first moment to vanish: the identities of the weight
+    # kernels are decided exactly as under C06 and recorded here as the conservation clause of this property
+    from ..report import Report
+    from .c06 import kernel_identities
+    tmp = Report("C07", "other")
+    for dim in (2, 3):
+        for kind in ("cosine", "peskin"):
+            kernel_identities(S, tmp, dim, kind)
+    for o in tmp.obligations:
+        if o["rule"] in ("C06.c", "C06.m"):
+            o = dict(o, rule="C07.conserve")
+            if "key" in o:
+                o["key"] = o["key"].replace("C06.", "C07.conserve.")
+            rep.obligations.append(o)
+    rep.require_min("C07.conserve", 20)
     rep.require_min("C07.window", 4)
     rep.require_min("C07.weights", 4)
     rep.require_min("C07.accumulate", 4)
